@@ -15,6 +15,7 @@ CONSTANTS
   MaxBlockWeight = 250
   MineWeight = 120
   FeeFirst = TRUE
+  TimedAlways = TRUE
   StemRecheck = "always"
   FeeOnRemainder = TRUE
   EvictMode = "nodeps"
